@@ -39,6 +39,8 @@ func main() {
 		err = genPoolDeps(os.Args[2], os.Args[3])
 	case "lockflow":
 		err = genLockFlow(os.Args[2], os.Args[3])
+	case "bodysinks":
+		err = genBodySinks(os.Args[2], os.Args[3])
 	default:
 		err = fmt.Errorf("unknown translator %q", os.Args[1])
 	}
